@@ -21,7 +21,14 @@ def run(System, beh, opts, nontrivial=None):
             if act["name"] == "init":
                 ret = sysm.init(st) if hasattr(sysm, "init") else 0
             else:
-                ret = sysm.do(act, st)
+                try:
+                    ret = sysm.do(act, st)
+                except Exception as e:  # noqa: the operation itself failed on the real code
+                    if getattr(sysm, "exceptions_are_results", False):
+                        ret = ("exception", type(e).__name__)
+                    else:
+                        raise Diverge(i, "exception", "%s %s raised %s: %s" % (
+                            act["name"], {k: v for k, v in act.items() if k != "name"}, type(e).__name__, str(e)[:200]), st.get("ret"), repr(e))
             got = sysm.obs()
             bad = sysm.check(st, ret, got) if hasattr(sysm, "check") else None
             if bad is None and not hasattr(sysm, "check"):
